@@ -57,6 +57,9 @@ var rangeVals = []string{"a", "b", "c", "d", "e", "ab", "b.c", "c", "x"}
 // the pinned behaviour of the library and stay non-empty in generated items)
 var rangeValsPrimary = []string{"a", "b", "c", "d", "e", "ab", "b.c", "c", "x", ""}
 var rangeValsNum = []string{"1", "2", "3", "10", "9", "5", "7"}
+
+// distinct numbers that a binary64 (or a 17-digit rendering) cannot tell apart: distinct keys
+var rangeValsNumClose = []string{"9007199254740993", "9007199254740992", "0.1234567890123456789", "0.1234567890123456788", "12345678901234567890123456789012345678", "12345678901234567890123456789012345679"}
 var gVals = []string{"x", "y", "z", "x.y", "w"}
 var vVals = []string{"0", "1", "2", "3", "4", "5"}
 
@@ -65,6 +68,9 @@ func (g *HistGen) keyVal(t string, pool []string) AV {
 	case "N":
 		if g.p.FewHash && len(pool) <= 2 {
 			return AV{T: "N", V: []byte(pick(g.r, []string{"1", "2"}))}
+		}
+		if g.p.DotKeys && g.r.Chance(30) {
+			return AV{T: "N", V: []byte(pick(g.r, rangeValsNumClose))}
 		}
 		return AV{T: "N", V: []byte(pick(g.r, rangeValsNum))}
 	case "B":
@@ -170,6 +176,14 @@ func (g *HistGen) genItemFor(t *TableSpec) Item {
 		add("g2", S(pick(g.r, gVals)))
 	}
 	add("v", S(pick(g.r, vVals)))
+	if g.p.DotKeys && g.r.Chance(45) {
+		// a map whose members are named like the key attributes (nested names are no key attributes)
+		m := AV{T: "M", M: []KV{{[]byte(t.Hash[0]), S("inner")}, {[]byte("k"), S("1")}}}
+		if t.Range != nil {
+			m.M = append(m.M, KV{[]byte(t.Range[0]), S("inner")})
+		}
+		add("m1", m)
+	}
 	if g.r.Chance(60) {
 		add("n1", AV{T: "N", V: genNum(g.r, g.p.ExactNums)})
 	}
@@ -378,6 +392,11 @@ func (g *HistGen) maybeCond(t *TableSpec, op *Op) {
 			if strings.Contains(c, ":x") {
 				ctx.Values[":x"] = S("1")
 			}
+		} else if nt, ok := g.nativeText(50, append(append([]string{}, nativeTexts[:4]...), nativeTexts[6:]...)); ok {
+			c = nt
+			if strings.Contains(c, ":x") {
+				ctx.Values[":x"] = S("1")
+			}
 		} else {
 			op.CondTree = g.condTree(t)
 			c = ctx.Print(op.CondTree, 0)
@@ -439,7 +458,22 @@ func (g *HistGen) genPut() {
 
 func (g *HistGen) updateExpr(t *TableSpec, ctx *ExprCtx) string {
 	ixAttrs := []string{"g", "g2", "r2", "l"}
-	switch g.r.Intn(12) {
+	switch g.r.Intn(14) {
+	case 12: // a map whose members are named like the key attributes
+		m := AV{T: "M", M: []KV{{[]byte(t.Hash[0]), S("inner")}, {[]byte("k"), S("1")}}}
+		if t.Range != nil {
+			m.M = append(m.M, KV{[]byte(t.Range[0]), S("inner")})
+		}
+		return "SET " + ctx.name([]byte("m1")) + " = " + ctx.value(m)
+	case 13: // a nested path whose member is named like a key attribute: the key attribute itself is not targeted
+		member := t.Hash[0]
+		if t.Range != nil && g.r.Bool() {
+			member = t.Range[0]
+		}
+		if g.r.Chance(30) {
+			return "REMOVE " + ctx.name([]byte("m1")) + "." + ctx.name([]byte(member))
+		}
+		return "SET " + ctx.name([]byte("m1")) + "." + ctx.name([]byte(member)) + " = " + ctx.value(S(pick(g.r, vVals)))
 	case 0, 1:
 		return "SET " + ctx.name([]byte(pick(g.r, ixAttrs))) + " = " + ctx.value(S(pick(g.r, gVals)))
 	case 2:
@@ -494,13 +528,25 @@ func (g *HistGen) genUpdate() {
 		if strings.Contains(string(op.Expr), ":x") {
 			ctx.Values[":x"] = S("1")
 		}
-	} else if g.native && len(g.regs) > 0 && g.r.Chance(70) {
-		op.Expr = HexS(g.variant(pick(g.r, g.regs)))
+	} else if nt, ok := g.nativeText(70, nativeTexts[4:6]); ok {
+		op.Expr = HexS(nt)
 		if strings.Contains(string(op.Expr), ":x") {
 			ctx.Values[":x"] = S("1")
 		}
 	} else {
 		op.Expr = HexS(g.updateExpr(t, ctx))
+		if strings.Contains(string(op.Expr), ".") && g.r.Chance(70) {
+			// make sure the map the nested path walks into is there: the same key first receives it
+			pre := &Op{Op: "update", Table: HexS(t.Name), KeyItem: op.KeyItem}
+			pctx := NewExprCtx(g.r)
+			m := AV{T: "M", M: []KV{{[]byte(t.Hash[0]), S("inner")}, {[]byte("k"), S("1")}}}
+			if t.Range != nil {
+				m.M = append(m.M, KV{[]byte(t.Range[0]), S("inner")})
+			}
+			pre.Expr = HexS("SET " + pctx.name([]byte("m1")) + " = " + pctx.value(m))
+			pre.setExprs(pctx.Names, pctx.Values)
+			g.ops = append(g.ops, pre)
+		}
 	}
 	op.names, op.values = ctx.Names, ctx.Values
 	g.maybeCond(t, op)
@@ -620,8 +666,8 @@ func (g *HistGen) searchOpX(kind string, forceScan bool) *Op {
 		}
 		op.KeyTree = keyTree
 		kc := ctx.Print(keyTree, 0)
-		if g.native && len(g.regs) > 0 && g.r.Chance(50) {
-			kc = g.variant(pick(g.r, g.regs))
+		if nt, ok := g.nativeText(50, nativeTexts[:4]); ok {
+			kc = nt
 			op.KeyTree = nil
 			if strings.Contains(kc, ":x") {
 				ctx.Values[":x"] = S("1")
@@ -693,9 +739,9 @@ func (g *HistGen) searchOpX(kind string, forceScan bool) *Op {
 	if g.r.Chance(40) {
 		op.FilterTree = g.condTree(t)
 		f := ctx.Print(op.FilterTree, 0)
-		if g.native && len(g.regs) > 0 && g.r.Chance(50) {
+		if nt, ok := g.nativeText(50, nativeTexts); ok {
 			op.FilterTree = nil
-			f = g.variant(pick(g.r, g.regs))
+			f = nt
 			if strings.Contains(f, ":x") {
 				ctx.Values[":x"] = S("1")
 			}
@@ -885,14 +931,57 @@ func (g *HistGen) genMgmt() {
 	}
 }
 
+var nativeTexts = []string{"v = :x", "h = :x", "ab = :x", "ba = :x", "SET v = :x", "SET w = :x", "attribute_exists(v)", "h = :x AND v = :x"}
+
+// nativeText: while the native interpreter is active, a variant of a registered text or one of the
+// texts that may only be registered later (a registration made after a first use must still fire)
+func (g *HistGen) nativeText(pct int, later []string) (string, bool) {
+	if !g.native || !g.r.Chance(pct) {
+		return "", false
+	}
+	if len(g.regs) > 0 && g.r.Chance(70) {
+		return g.variant(pick(g.r, g.regs)), true
+	}
+	if g.r.Chance(60) {
+		return pick(g.r, later), true
+	}
+	return "", false
+}
+
 func (g *HistGen) genNative() {
 	live := g.live()
 	if len(live) == 0 {
 		return
 	}
 	t := pick(g.r, live)
-	texts := []string{"v = :x", "h = :x", "ab = :x", "ba = :x", "SET v = :x", "SET w = :x", "attribute_exists(v)", "h = :x AND v = :x"}
-	switch g.r.Intn(6) {
+	texts := nativeTexts
+	switch g.r.Intn(7) {
+	case 6:
+		// use, register, use again: a matcher registered after the table already evaluated the
+		// very same text must fire from then on (and a text that loses its registration falls back)
+		if !g.native {
+			g.ops = append(g.ops, &Op{Op: "activateNative"})
+			g.native = true
+		}
+		e := pick(g.r, []string{"v = :x", "attribute_exists(v)", "ab = :x"})
+		scan := func() {
+			op := &Op{Op: "query", Table: HexS(t.Name), Scan: true, Forward: true, Filter: HexS(e)}
+			vals := map[string]AV{}
+			if strings.Contains(e, ":x") {
+				vals[":x"] = S("1")
+			}
+			op.setExprs(map[string]string{}, vals)
+			g.ops = append(g.ops, op)
+		}
+		scan()
+		g.ops = append(g.ops, &Op{Op: "registerMatcher", Table: HexS(t.Name), Kind: "filter", Expr: HexS(e), ID: g.r.Intn(6)})
+		g.regs = append(g.regs, e)
+		scan()
+		if g.r.Chance(40) {
+			g.ops = append(g.ops, &Op{Op: "setInterpreter"})
+			g.regs = nil
+			scan()
+		}
 	case 0:
 		g.ops = append(g.ops, &Op{Op: "activateNative"})
 		g.native = true
